@@ -1346,6 +1346,14 @@ impl Arena {
           return Ok(allocated);
         }
         Err(current) => {
+          // we could not unlink the node we marked: give the mark back, otherwise every thread that
+          // meets the node (including this one) would wait for an unlink that never happens.
+          let _ = next_node.compare_exchange(
+            removed_next,
+            next_node_val,
+            Ordering::AcqRel,
+            Ordering::Relaxed,
+          );
           let (node_size, _) = decode_segment_node(current);
           if node_size == REMOVED_SEGMENT_NODE {
             // the current node is marked as removed, wait other thread to make progress.
@@ -1470,6 +1478,13 @@ impl Arena {
           return Ok(allocated);
         }
         Err(current) => {
+          // we could not unlink the head we marked: give the mark back (see alloc_slow_path_pessimistic).
+          let _ = head.compare_exchange(
+            removed_head,
+            head_node_size_and_next_node_offset,
+            Ordering::AcqRel,
+            Ordering::Relaxed,
+          );
           let (node_size, _) = decode_segment_node(current);
           if node_size == REMOVED_SEGMENT_NODE {
             // The current head is removed from the list, wait other thread to make progress.
@@ -1553,6 +1568,13 @@ impl Arena {
           continue;
         }
         Err(current) => {
+          // we could not unlink the head we marked: give the mark back (see alloc_slow_path_pessimistic).
+          let _ = head.compare_exchange(
+            removed_head,
+            head_node_size_and_next_node_offset,
+            Ordering::AcqRel,
+            Ordering::Relaxed,
+          );
           let (node_size, _) = decode_segment_node(current);
           if node_size == REMOVED_SEGMENT_NODE {
             // The current head is removed from the list, wait other thread to make progress.
